@@ -90,6 +90,7 @@ def check_c16(prog, rep, tier, cfg):
     c17a(prog, AliasReport(rep, [("C17.a", r".", "C16.h")]))
     c17b(prog, AliasReport(rep, [("C17.b", r".", "C16.h")]))
     c16i(prog, rep)
+    c16j(prog, rep)
 
 
 def partial_writes(prog, crates=("pasfmt",)):
@@ -135,6 +136,36 @@ def c16i(prog, rep):
               "files can interleave" % [short(c.body.npath) for c in ul[:3]], where=ul[0].where() if ul else None, instance={"unlocked_handles": len(ul)})
     so = [c for b in prog.bodies.values() if b.crate.startswith("pasfmt") for c in b.calls() if (c.callee or "") in ("std::io::stdout", "std::io::stdio::stdout")]
     rep.analysed["stdout_handles"] = len(so)
+
+
+def c16j(prog, rep):
+    """C16.j — every mode reports success only for an input it has actually formatted: in each body that decodes an input (the stdin
+    paths; the per-file body of the batch modes is C16.b) a successful return is reached only through Formatter::format, and in the
+    printing mode also through the write to stdout.  An early `return Ok(())` for inputs of some shape (blank, already tidy ..)
+    makes stdout mode print something else than files mode leaves in the file, and check mode disagree with both."""
+    R = "C16.j"
+    FMT = "pasfmt_core::formatter::Formatter::format"
+    n = 0
+    for k, b in sorted(prog.bodies.items()):
+        if not k.startswith(FF) or k == FF + "decode_stdin" or k.startswith(FF + "decode_stdin::"):
+            continue
+        dec = [c for c in b.calls() if norm(c.t.get("resolved") or c.callee or "") in (FF + "decode_stdin",)]
+        if not dec:
+            continue
+        n += 1
+        fm = {c.bb for c in b.calls() if norm(c.t.get("resolved") or c.callee or "") == FMT}
+        oks = ok_return_blocks(b)
+        # returns that hand on the result of a call made after formatting are fine; an `Ok(..)` built here must lie behind the format call
+        early = [r for r in oks if b.can_reach_avoiding(0, {r}, fm)]
+        rep.check(bool(fm) and not early, R, "success-only-after-formatting:%s" % short(k),
+                  "%s can report success for its input without having formatted it (an `Ok` return is reachable without passing Formatter::format): the modes then disagree on that input"
+                  % short(k), where="%s:%d" % (b.file, b.line), instance={"body": short(k), "ok_returns": len(oks)})
+        if "to_stdout" in k:
+            ws = {c.bb for c in b.calls() if norm(c.t.get("resolved") or c.callee or "") in (FF + "write_stdout", FF + "write")}
+            early2 = [r for r in oks if b.can_reach_avoiding(0, {r}, ws)]
+            rep.check(bool(ws) and not early2, R, "success-only-after-printing:%s" % short(k),
+                      "%s can report success without having written the result to stdout" % short(k), where="%s:%d" % (b.file, b.line), instance={"body": short(k)})
+    rep.floor(R, "bodies that decode stdin", n, 2)
 
 
 def effect_sites(prog):
